@@ -678,7 +678,13 @@ impl CallSet {
 
     pub fn rec_text(&self, r: &Rec) -> String {
         let refb = BASES[(r.pos as usize) % 4];
-        let alts: Vec<&str> = (1..=r.nalt as usize).map(|k| BASES[(r.pos as usize + k) % 4]).collect();
+        let mut alts: Vec<&str> = (1..=r.nalt as usize).map(|k| BASES[(r.pos as usize + k) % 4]).collect();
+        // an invariant site as all-sites call sets write it: no ALT allele at all (`.`), for a third
+        // of the records in which no call refers to one (a function of the record, no random draw)
+        if r.pos % 3 == 0 && !r.gts.iter().any(|g| g.bytes().any(|b| (b'1'..=b'9').contains(&b))) {
+            alts.clear();
+        }
+        let alt_column = if alts.is_empty() { ".".to_string() } else { alts.join(",") };
         let info = if self.extra_info {
             format!("DP={}", 10 + r.pos % 7)
         } else {
@@ -689,7 +695,7 @@ impl CallSet {
             self.contig_column(r.contig),
             r.pos,
             refb,
-            alts.join(","),
+            alt_column,
             info,
             if r.no_gt {
                 "DP"
